@@ -120,6 +120,27 @@ func (p c12Probe) ServeHTTP(w http.ResponseWriter, r *http.Request) (int, error)
 		case "wf":
 			w.Write(b)
 			w.(http.Flusher).Flush()
+		case "fw":
+			// Flush first (commits 200, so only used with the implicit status), then Write
+			w.(http.Flusher).Flush()
+			w.Write(b)
+		case "nw":
+			// every wrapper must still offer the optional interfaces of the connection's writer
+			_, okF := w.(http.Flusher)
+			cn, okC := w.(http.CloseNotifier)
+			pu, okP := w.(http.Pusher)
+			_, okH := w.(http.Hijacker)
+			_, okR := w.(io.ReaderFrom)
+			if !okF || !okC || !okH {
+				w.Write([]byte("MISSING-OPTIONAL-INTERFACE"))
+				return
+			}
+			_ = okR // ReaderFrom is an optimisation, wrappers may hide it
+			cn.CloseNotify()
+			if okP { // only HTTP/2 connections (and casket's wrappers) offer Push
+				pu.Push("/c12-push", nil)
+			}
+			w.Write(b)
 		default:
 			w.Write(b)
 		}
@@ -495,6 +516,7 @@ func c12Inners() []string {
 		out = append(out,
 			c12Write("200", k, 0, 1, "w"), c12Write("-", k, 0, 0, "c"), c12Write("404", k, 0, 1, "s"),
 			c12Write("201", k, 1, 1, "w"), c12Write("200", k, 0, 0, "wf"), c12Write("-", k, 0, 1, "c"),
+			c12Write("-", k, 0, 1, "fw"), c12Write("200", k, 0, 0, "nw"),
 			"file:"+k+":"+hx.HS(c12Bodies[k]))
 	}
 	return out
@@ -582,7 +604,7 @@ func c12Gen(g *hx.Gen) {
 		case 1:
 			in = fmt.Sprintf("ret:%d:0", hx.Pick(g.Rng, []int{0, 200, 204, 301, 302, 304}))
 		case 2:
-			in = fmt.Sprintf("write:%s:%s:%d:plain:%d:%s", st, hx.H(body), g.Rng.Intn(2), g.Rng.Intn(2), hx.Pick(g.Rng, []string{"w", "c", "s", "wf"}))
+			in = fmt.Sprintf("write:%s:%s:%d:plain:%d:%s", st, hx.H(body), g.Rng.Intn(2), g.Rng.Intn(2), hx.Pick(g.Rng, []string{"w", "c", "s", "wf", "nw"}))
 		case 3:
 			in = "panic"
 		default:
@@ -670,6 +692,7 @@ func c12LiveGen(g *hx.Gen) {
 		"panic", "panicafter:200:" + body, "panicafter:-:" + body}
 	for _, k := range []string{"plain", "tok", "tparse", "texec"} {
 		inners = append(inners, c12Write("200", k, 0, 1, "w"), c12Write("404", k, 0, 1, "c"), c12Write("-", k, 0, 0, "wf"),
+			c12Write("-", k, 0, 1, "fw"), c12Write("200", k, 0, 0, "nw"),
 			"file:"+k+":"+hx.HS(c12Bodies[k]))
 	}
 	for m := 0; m < 1<<len(c12Semantic); m++ {
